@@ -306,4 +306,92 @@ theorem checks_fin {env : Env} {G : Guards} {measured : List Exc} {qs : List Nat
     simp only [h1, if_true]
     exact raise_fin hG hP hrep sh p _ hG.lTypeExc hl hfp ha ht
 
+/-- `open('rb')` → `pickle.load` → (release) → checks | handler -/
+theorem open_fin {env : Env} {G : Guards} {measured : List Exc} {qs : List Nat}
+    (hG : WF G) (hP : PickleOK env measured)
+    (hrep : (G.l.removeStale = true ∧ G.l.handlerRemoves = true) ∨ (qs ≠ [] ∧ G.w.mergesExisting = false))
+    (sh : Sh) (p : Proc) (h0 : FileSafe env G sh.file) (hpc : p.pc = .lOpen)
+    (hl : G.l.lockRead = false → sh.lock = none)
+    (hfp : p.selfFp = none) (ha : p.answers = []) (ht : p.todo = qs) :
+    Fin env G qs sh p := by
+  apply Fin_step
+  cases hfile : sh.file with
+  | none =>
+    simp only [pstep, hpc, hfile, leaveRead, Option.some.injEq, exists_eq_left']
+    by_cases hlr : G.l.lockRead = true
+    · simp only [hlr, if_true]
+      apply Fin_step
+      simp only [pstep, Option.some.injEq, exists_eq_left']
+      exact raise_fin hG hP hrep _ _ _ hG.lFnf rfl hfp ha ht
+    · simp only [hlr, Bool.false_eq_true, if_false]
+      exact raise_fin hG hP hrep _ _ _ hG.lFnf (hl (by simpa using hlr)) hfp ha ht
+  | some b =>
+    simp only [pstep, hpc, hfile, Option.some.injEq, exists_eq_left']
+    apply Fin_step
+    have hb := h0 b hfile
+    unfold Harmless at hb
+    cases hu : env.unpickle b with
+    | ok v =>
+      rw [hu] at hb
+      simp only [pstep, hu, leaveRead, Option.some.injEq, exists_eq_left']
+      by_cases hlr : G.l.lockRead = true
+      · simp only [hlr, if_true]
+        apply Fin_step
+        simp only [pstep, Option.some.injEq, exists_eq_left']
+        exact checks_fin hG hP hrep _ _ v b rfl hfile hu hb rfl hfp ha ht
+      · simp only [hlr, Bool.false_eq_true, if_false]
+        exact checks_fin hG hP hrep _ _ v b rfl hfile hu hb (hl (by simpa using hlr)) hfp ha ht
+    | raises e =>
+      rw [hu] at hb
+      simp only [pstep, hu, leaveRead, Option.some.injEq, exists_eq_left']
+      by_cases hlr : G.l.lockRead = true
+      · simp only [hlr, if_true]
+        apply Fin_step
+        simp only [pstep, Option.some.injEq, exists_eq_left']
+        exact raise_fin hG hP hrep _ _ _ hb.1 rfl hfp ha ht
+      · simp only [hlr, Bool.false_eq_true, if_false]
+        exact raise_fin hG hP hrep _ _ _ hb.1 (hl (by simpa using hlr)) hfp ha ht
+
+/-- A process started alone on any harmless cache state finishes normally, answers every query as a
+    load from the data folder would, releases the lock, and leaves the cache missing or complete+valid. -/
+theorem seq_run (env : Env) (G : Guards) (measured : List Exc)
+    (hG : wfGuards G = true) (hP : PickleOK env measured) (hM : coversMeasured G measured = true)
+    (f0 : Option Bytes) (h0 : FileSafe env G f0) (qs : List Nat)
+    (hrep : (G.l.removeStale = true ∧ G.l.handlerRemoves = true) ∨ (qs ≠ [] ∧ G.w.mergesExisting = false)) :
+    ∃ n sh p, runSeq env G n { file := f0, lock := none } (initProc G qs) = (sh, p) ∧
+      p.pc = .done ∧ p.answers = disabledAnswers env qs ∧ sh.lock = none ∧
+      (sh.file = none ∨ ∃ b, sh.file = some b ∧ Valid env b) := by
+  have hW := WF.of hG
+  show Fin env G qs { file := f0, lock := none } (initProc G qs)
+  have hopen : ∀ (sh : Sh) (p : Proc), sh.file = f0 → p.pc = .lOpen → (G.l.lockRead = false → sh.lock = none) →
+      p.selfFp = none → p.answers = [] → p.todo = qs → Fin env G qs sh p := by
+    intro sh p hf
+    exact open_fin hW hP hrep sh p (by rw [hf]; exact h0)
+  have hacq : Fin env G qs { file := f0, lock := none }
+      { (initProc G qs) with pc := if G.l.lockRead then .lAcquire else .lOpen } := by
+    by_cases hlr : G.l.lockRead = true
+    · simp only [hlr, if_true]
+      apply Fin_step
+      simp only [pstep, if_true, Option.some.injEq, exists_eq_left']
+      exact hopen _ _ rfl rfl (fun h => by rw [hlr] at h; cases h) rfl rfl rfl
+    · simp only [hlr, Bool.false_eq_true, if_false]
+      exact hopen _ _ rfl rfl (fun _ => rfl) rfl rfl rfl
+  by_cases heg : G.l.existsGuard = true
+  · have : initProc G qs = { (initProc G qs) with pc := .lExists } := by
+      simp [initProc, initPC, heg]
+    rw [this]
+    apply Fin_step
+    cases hf : f0 with
+    | none =>
+      simp only [pstep, Option.isSome_none, Option.some.injEq, exists_eq_left']
+      exact finish_fin hW hP _ _ rfl rfl rfl (by simp [initProc]) (Or.inl (Or.inl rfl))
+    | some b =>
+      simp only [pstep, Option.isSome_some, if_true, Option.some.injEq, exists_eq_left']
+      rw [hf] at hacq
+      exact hacq
+  · have : initProc G qs = { (initProc G qs) with pc := if G.l.lockRead then .lAcquire else .lOpen } := by
+      simp [initProc, initPC, heg]
+    rw [this]
+    exact hacq
+
 end SpsdkVerif.DbCache
